@@ -529,8 +529,12 @@ class HasIO(HasStateDisplay, HasLabel, HasRun, Generic[OutputsType], ABC):
             for key, channel in other_panel.items():
                 for target in channel.connections:
                     try:
-                        my_panel[key].connect(target)
-                        new_connections.append((my_panel[key], target))
+                        my_channel = my_panel[key]
+                        already_connected = target in my_channel.connections
+                        my_channel.connect(target)
+                        if not already_connected:
+                            # Only what we form here may be unwound again
+                            new_connections.append((my_channel, target))
                     except Exception as e:
                         if fail_hard:
                             # If you run into trouble, unwind what you've done
